@@ -7,6 +7,14 @@ VARIABLES i, d1, d2
 Init == i \in 1..Len(BaseSeq) /\ d1 \in Descr(BaseSeq[i]) /\ d2 \in Descr(BaseSeq[i])
 Next == UNCHANGED <<i, d1, d2>>
 Spec == Init /\ [][Next]_<<i, d1, d2>>
+MemberEq(t, x, y) == CASE t = "MultiPoint" -> EqPt(x, y)
+                      [] t = "MultiLineString" -> EqCurveIO(x, y)
+                      [] t = "MultiPolygon" -> EqPolyIO(x, y)
+                      [] OTHER -> EqIO(x, y)
+Count(t, x, c) == Cardinality({j \in 1..Len(c) : MemberEq(t, x, c[j])})
+MultisetLaw(a, b) ==
+  (a.t = b.t /\ a.ct = b.ct /\ a.t \in {"MultiPoint","MultiLineString","MultiPolygon","GeometryCollection"})
+  => (EqIO(a, b) <=> (Len(a.c) = Len(b.c) /\ \A m \in 1..Len(a.c) : Count(a.t, a.c[m], a.c) = Count(a.t, a.c[m], b.c)))
 Reorder == {"same","rev","rot","rotrev","holes","ringrot","ringsrev","perm"}
 Laws == LET g == BaseSeq[i] a == Variant(g, d1) b == Variant(g, d2) IN
   /\ Eq(a,a) /\ EqIO(a,a)
@@ -15,4 +23,7 @@ Laws == LET g == BaseSeq[i] a == Variant(g, d1) b == Variant(g, d2) IN
   /\ (EqIO(g,a) /\ EqIO(g,b) => EqIO(a,b))
   /\ (d1[1] \in Reorder => EqIO(g,a))
   /\ (d1[1] \in {"bump","drop"} /\ ~SameTree(a,g) => ~EqIO(g,a) /\ ~Eq(g,a))
+  \* a bijection of members exists exactly when the member lists are equal as multisets of equivalence classes: every
+  \* member has as many equals on the other side as on its own (counting is independent of the backtracking in Bij)
+  /\ MultisetLaw(a, b)
 =============================================================================
